@@ -9,10 +9,17 @@ open GoMC GoMC.Model GoMC.Spec Driver
 
 `bits.hist <bits> <length> <init> <ops> => <obs>`
   init: `nil` | `-` (empty, non-nil) | hex of the longs (16 digits each)
-  ops (comma separated): `get:i` `set:i:v` `swap:i:v` `len` `raw` `wt` `rf:<hex bytes>` `fix:<bits>`
+  ops (comma separated): `get:i` `set:i:v` `swap:i:v` `len` `raw` `wt` `rf:<hex bytes>` `rf:<kind>:<hex bytes>` `fix:<bits>`
+    (`kind` names the io.Reader the harness wraps the bytes in: bytes.Reader, bytes.Buffer, bufio.Reader, plain
+    readers with various chunkings, data+EOF, (0,nil) reads, iotest.DataErrReader, `L<N>.<kind>` = io.LimitedReader
+    with limit N.  The model reads the flat byte content and ignores the kind: `BitStorage.readFrom` is
+    fragmentation invariant — theorem `C09_frag_bits` / `Lemmas.C09.fragInv_bitsRead`: same result, same
+    consumed count and same residual for any two deliveries of the same bytes.  A LimitedReader is the source
+    whose content is the first N bytes; what lies behind the limit is unread by definition.)
   obs (comma separated): first the constructor (`ok` | `panic`; after `panic` nothing follows), then one per op:
     get/swap: the integer | `panic`;  set: `ok` | `panic`;  len: integer;  raw: hex longs;
-    wt: `<hex bytes>:<n>`;  rf: `ok:<n>:<unread>` | `err:<unread>` | `panic`;  fix: `ok` | `err` | `panic`
+    wt: `<hex bytes>:<n>`;  rf: `ok:<n>:<unread>` | `err:<unread>` | `panic` (`unread` = bytes of the
+    underlying source not taken by the storage);  fix: `ok` | `err` | `panic`
 `bits.size <bits> <length> => <int> | panic`          (calcBitStorageSize through the verif hook)
 `bits.bpv <bits> <length> => <longs> <bpv> | panic`    (calcBitsPerValue(length, calcBitStorageSize(bits, length)))
 `bits.bpv2 <length> <longs> => <int> | panic`         (calcBitsPerValue on arbitrary arguments)
@@ -21,7 +28,7 @@ open GoMC GoMC.Model GoMC.Spec Driver
 -/
 
 inductive Op where
-  | get (i : Int) | set (i v : Int) | swap (i v : Int) | len | raw | wt | rf (bs : Bytes) | fix (b : Int)
+  | get (i : Int) | set (i v : Int) | swap (i v : Int) | len | raw | wt | rf (bs : Bytes) (behind : Nat) | fix (b : Int)
 
 def parseOp (s : String) : Option Op :=
   match s.splitOn ":" with
@@ -31,7 +38,14 @@ def parseOp (s : String) : Option Op :=
   | ["len"] => some Op.len
   | ["raw"] => some Op.raw
   | ["wt"] => some Op.wt
-  | ["rf", h] => (parseHex h).map Op.rf
+  | ["rf", h] => (parseHex h).map fun bs => Op.rf bs 0
+  | ["rf", kind, h] => (parseHex h).map fun bs =>
+    -- `L<N>.<inner>`: only the first N bytes are the source's content, the rest stays behind the limit
+    if kind.startsWith "L" then
+      match ((kind.drop 1).toString.splitOn ".").head?.bind String.toNat? with
+      | some lim => Op.rf (bs.take lim) (bs.length - min lim bs.length)
+      | none => Op.rf bs 0
+    else Op.rf bs 0
   | ["fix", b] => b.toInt?.map Op.fix
   | _ => none
 
@@ -74,9 +88,9 @@ def stepModel (st : BitStorage) : Op → String × BitStorage
   | .len => (toString st.len, st)
   | .raw => (hexOfLongs st.raw, st)
   | .wt => let bs := st.writeTo; (s!"{hexOfBytes bs}:{bs.length}", st)
-  | .rf bs =>
+  | .rf bs behind =>
     let r := st.readFrom (Stream.ofBytes bs)
-    let unread := r.2.2.flat.length
+    let unread := r.2.2.flat.length + behind
     (match r.1 with
       | .ok n => s!"ok:{n}:{unread}"
       | .err => s!"err:{unread}"
@@ -112,7 +126,11 @@ def isPrefix : Bytes → Bytes → Bool
 /-- check raw longs against the reference array -/
 def checkRaw (r : Ref) (ls : List (BitVec 64)) (what : String) : Option String :=
   match r.known with
-  | none => none
+  | none =>
+    -- between a successful ReadFrom and the next Fix the storage holds exactly the longs that were on the wire
+    match r.pending with
+    | some want => if ls != want then some s!"{what}: not the longs delivered by ReadFrom" else none
+    | none => none
   | some xs =>
     let b := r.bits.toNat
     let n := r.n.toNat
@@ -176,8 +194,9 @@ def specStep (r : Ref) (op : Op) (obs : String) : Option String × Ref :=
               | none => (some "WriteTo: longs", r)
               | some ls => (checkRaw r ls "WriteTo", r)
     | _ => (some "WriteTo: unparseable observation", r)
-  | .rf bs =>
-    -- the wire form: minimal VarInt count k (0 ≤ k < 2^31), then k big-endian longs
+  | .rf bs behind =>
+    -- the wire form: minimal VarInt count k (0 ≤ k < 2^31), then k big-endian longs; for every kind of source
+    -- exactly prefix + 8·k bytes are taken, what follows stays unread, and the storage holds those k longs
     let unknown : Ref := { r with known := none, pending := none, rawLen := none, clean := false }
     -- the only panics the property allows are the range checks of Get/Set/Swap: a decoder fed bytes returns
     if obs == "panic" then (some "ReadFrom panicked on wire input", unknown) else
@@ -185,7 +204,7 @@ def specStep (r : Ref) (op : Op) (obs : String) : Option String × Ref :=
     | some (k, rest) =>
       if k < 2 ^ 31 && isPrefix (leb k) bs then
         if 8 * k ≤ rest.length then
-          let want := s!"ok:{(leb k).length + 8 * k}:{rest.length - 8 * k}"
+          let want := s!"ok:{(leb k).length + 8 * k}:{rest.length - 8 * k + behind}"
           match longsOfBytes (rest.take (8 * k)) [] with
           | some ls =>
             (if obs != want then some s!"ReadFrom of a well-formed array: expected {want}" else none,
